@@ -15,6 +15,7 @@ import (
 	"sort"
 	"strconv"
 	"strings"
+	"time"
 
 	"github.com/jensneuse/abstractlogger"
 
@@ -493,6 +494,10 @@ func (e *fedEnv) runOps(eng *engine.ExecutionEngine, ops []*fedOp, query func(*f
 			x.done = true
 		})
 	}
+	// periodic timers (heartbeat tickers of the engines' resolvers) defeat idleness detection: a
+	// request that has not returned after 60 simulated seconds with every answer delivered is wedged
+	saved := r.SimDeadline
+	r.SimDeadline = r.Now() + 60*time.Second
 	out := r.RunUntil(func() bool {
 		for _, x := range execs {
 			if !x.done {
@@ -501,6 +506,7 @@ func (e *fedEnv) runOps(eng *engine.ExecutionEngine, ops []*fedOp, query func(*f
 		}
 		return true
 	}, 200)
+	r.SimDeadline = saved
 	return execs, out
 }
 
@@ -509,6 +515,10 @@ func (e *fedEnv) monolith(op *fedOp, query string, fail func(t, id, f string) bo
 }
 
 func (e *fedEnv) monolithMode(op *fedOp, query string, fail func(t, id, f string) bool, nullInput bool) (*gResult, error) {
+	return e.monolithMode3(op, query, fail, nullInput, false)
+}
+
+func (e *fedEnv) monolithMode3(op *fedOp, query string, fail func(t, id, f string) bool, nullInput, ignoreInputs bool) (*gResult, error) {
 	doc, err := parseGQL(query)
 	if err != nil {
 		return nil, err
@@ -518,7 +528,7 @@ func (e *fedEnv) monolithMode(op *fedOp, query string, fail func(t, id, f string
 	dec.UseNumber()
 	_ = dec.Decode(&vars)
 	var muts []string
-	return gExecute(e.mono, doc, op.Name, vars, &monolithBackend{s: e.spec, fail: fail, muts: &muts, nullInputOnFailure: nullInput})
+	return gExecute(e.mono, doc, op.Name, vars, &monolithBackend{s: e.spec, fail: fail, muts: &muts, nullInputOnFailure: nullInput, ignoreFailedInputs: ignoreInputs})
 }
 
 func newFedEnv(r *core.Run, rich bool) *fedEnv {
